@@ -193,6 +193,16 @@ func (p *Path) schedule(self *Thread, mustSwitch bool) {
 }
 
 func (p *Path) deadlock(self *Thread) {
+	if p.envExhausted {
+		// a goroutine waits on a timer/ticker whose modelled number of firings
+		// (max_env_fires) is used up: the bound of the environment model was
+		// reached, not a deadlock of the program
+		if self.done {
+			p.finishFromPanic(&Outcome{Kind: "pruned", Msg: "environment timer bound reached"})
+			return
+		}
+		p.finish(&Outcome{Kind: "pruned", Msg: "environment timer bound reached"})
+	}
 	// timers that never fire are fine; a deadlock is all threads blocked.
 	r, m := p.S.Check(nil, p.nondetVars())
 	if r != "unsat" {
@@ -356,6 +366,7 @@ func (p *Path) chanRecv(fr *frame, cv Value) (Value, bool) {
 	}
 	if c.env {
 		// environment channel exhausted: blocks forever
+		p.envExhausted = true
 		p.block(self, func() bool { return false })
 	}
 	w := &waiter{th: self}
@@ -453,6 +464,9 @@ func (p *Path) selectOp(fr *frame, in *ssa.Select) Value {
 	for i, c := range cases {
 		if c.c == nil {
 			continue
+		}
+		if c.c.env && !c.send {
+			p.envExhausted = true
 		}
 		w := &waiter{th: self, isSend: c.send, val: c.val, sel: st, caseIx: i}
 		ws = append(ws, w)
